@@ -38,7 +38,7 @@ Modes == {"transport", "tunnel"}
 IpsecProtos == [esp |-> 3, ah |-> 2]
 \* what the harness can resolve / parse (it serves getaddrinfo itself)
 Listening == {"192.168.0.1"}
-Addrs == {"192.168.0.1", "192.168.0.2", "10.9.9.9", "alice.example"}          \* "alice.example" resolves to 192.168.0.1
+Addrs == {"192.168.0.1", "192.168.0.2", "10.9.9.9", "alice.example", "2001:db8::2"}   \* the peer may be of the other address family than the local address          \* "alice.example" resolves to 192.168.0.1
 Resolve(a) == IF a = "alice.example" THEN "192.168.0.1" ELSE a
 Nets == {"192.168.0.1", "192.168.0.2", "10.1.0.0/24", "10.2.0.0/16", "2001:db8::/64"}
 IntStr == {"0", "23", "60", "600"}
@@ -153,7 +153,7 @@ BaseConn == [my_addr |-> S("192.168.0.1"), peer_addr |-> S("192.168.0.2"), my_au
 Generic == {S("abc"), I(5), NegI(3), B(TRUE), Null, Lst(<<>>), Lst(<<S("x")>>), Mp([x |-> S("y")]), Absent}
 ConnValues(key) ==
   Generic \cup
-  CASE key \in {"my_addr", "peer_addr"} -> {S("192.168.0.2"), S("192.168.0.1"), S("10.9.9.9"), S("alice.example"), S("not an address")}
+  CASE key \in {"my_addr", "peer_addr"} -> {S("192.168.0.2"), S("192.168.0.1"), S("10.9.9.9"), S("alice.example"), S("2001:db8::2"), S("not an address")}
     [] key \in {"my_auth", "peer_auth"} -> {Mp([psk |-> S("k")]), Mp([id |-> S("192.168.0.2"), psk |-> S("k")]), Mp([id |-> S("2001:db8::7"), psk |-> S("k")]),
                                              Mp([id |-> S("host.example"), privkey |-> S("PEM-PRIVATE")]), Mp([id |-> S("bob@example.org"), pubkey |-> S("PEM-PUBLIC")]),
                                              Mp([id |-> S("a"), privkey |-> S("garbage")]), Mp([id |-> S("a"), pubkey |-> I(7)]), Mp([id |-> I(5), psk |-> S("k")]),
